@@ -489,21 +489,17 @@ def check_window_selection(ctx, model):
     b = ctx.view("fee_distributor::state::get_claimable_epochs", "C09-D5")
     if a is None or b is None:
         return
-    voc = re.compile(r"as std::iter::Iterator>::(\w+)$|^std::vec::Vec::(\w+)$|^std::slice::(\w+)$|^cw_storage_plus::\w+::(\w+)$|^std::option::Option::(\w+)$")
-
-    def toks(v):
-        c = Counter()
-        for bb, t in v.iter_calls():
-            m_ = voc.search(mname(t))
-            if m_:
-                c[next(g for g in m_.groups() if g)] += 1
-        return c
-    ta, tb = toks(a), toks(b)
-    allowed_extra = Counter({"len": 1, "last": 1, "cloned": 1, "unwrap_or_default": 1})
-    extra = (ta - tb) - allowed_extra
-    missing = tb - ta
-    ctx.ob("C09-D5", "get_expiring_epoch==window-of-get_claimable_epochs", not extra and not missing,
-           "expiring-epoch selection operations beyond the claimable window's: %s; missing: %s (window ops: %s)" % (dict(extra), dict(missing), dict(tb)), a.where())
+    # the expiring epoch is picked from the SAME window as the claimable epochs: both walk EPOCHS newest first, bounded by
+    # take(grace_period) (next obligation), and neither narrows, shifts or reverses that walk with a selecting adapter
+    from .common import scope_views
+    selecting = re.compile(r"as std::iter::Iterator>::(filter|filter_map|skip|skip_while|take_while|step_by|rev|nth|last|min\w*|max\w*)$|^std::vec::Vec::(retain|truncate|drain|remove|swap_remove|split_off|reverse|sort\w*)$")
+    narrowing = {}
+    for w in (a, b):
+        for sv, ch in scope_views(model, w.path):
+            for bb, t in sv.calls_to(selecting):
+                narrowing.setdefault(w.path, []).append(mname(t).split("::")[-1])
+    ctx.ob("C09-D5", "get_expiring_epoch==window-of-get_claimable_epochs", not narrowing,
+           "selecting / reordering operations applied to the epoch window: %s (none allowed: the window is range(Descending).take(grace_period) in both)" % (narrowing or "none"), a.where())
     # order Descending and take(grace_period) in both
     for v in (a, b):
         desc = any(o.kind == "agg" and o.a.endswith("Order::Descending") for bb, t in v.calls_to(r"cw_storage_plus::Map::range$") for o in arg_origins(v, bb, t, 4))
@@ -524,8 +520,11 @@ def check_window_selection(ctx, model):
             at = (c.site[1], c.site[2]) if c.site[0] == "s" else a.at_term(c.site[1])
             oa = a.origins_of_operand(c.a, at=at, taint=True)
             ob = a.origins_of_operand(c.b, at=at, taint=True)
-            if (any(o.kind == "call" and o.a.endswith("Vec::len") for o in oa) and any(o.kind == "load" and tuple(o.proj) == ("grace_period",) for o in ob)) or \
-               (any(o.kind == "call" and o.a.endswith("Vec::len") for o in ob) and any(o.kind == "load" and tuple(o.proj) == ("grace_period",) for o in oa)):
+            # the number of epochs in the window: the length of the collected vector, or a counter bumped once per epoch
+            cnt = lambda os_: any(o.kind == "call" and o.a.endswith("Vec::len") for o in os_) or (
+                any(o.kind == "arith" and "Add" in str(o.a) for o in os_) and all(o.kind in ("arith", "const") for o in os_))
+            gp = lambda os_: any(o.kind == "load" and tuple(o.proj) == ("grace_period",) for o in os_)
+            if (cnt(oa) and gp(ob)) or (cnt(ob) and gp(oa)):
                 ok = True
     ctx.ob("C09-D5", "get_expiring_epoch|full-window-test", ok, "an epoch expires iff the window holds grace_period epochs: %s" % ok, a.where())
 
